@@ -327,6 +327,41 @@ def fam_columns(c, tier):
     }
 
 
+def fam_hline_then_cross(c, tier):
+    """a line of 2-3 glyphs, then a glyph that is aligned with the line's last (or first) glyph only in the OTHER writing
+    direction (directly below / above it), detect_vertical=True: the running line must not take it"""
+    n = c.pick([2, 3], "glyphs in the line")
+    cm = c.pick([Q(1), Q(2)], "char_margin")
+    wc = c.pick([8, 16], "width of the cross glyph")
+    last = c.pick([True, False], "under the last glyph")
+    below = c.pick([True, False], "below")
+    lo = Q(1, 2)
+    line = [G("abc"[i], 8 * i, 0, 8, 8) for i in range(n)]
+    t = line[-1] if last else line[0]
+    ov = c.pick(around(lo * min(8, wc)) + [Q(8)], "overlap along the line")
+    dist = c.pick(around(cm * 8) + [Q(0), Q(1)], "distance across the line")
+    u0 = t[1] + 8 - ov
+    v0 = (-dist - 8) if below else (8 + dist)
+    return {"family": "hline-then-cross", "glyphs": line + [G("x", u0, v0, wc, 8)], "params": (lo, cm, Q(1, 2), Q(1, 4), Q(1, 2)),
+            "judge_space": True, "extra_scales": (), "detect_vertical": True}
+
+
+PERM3B = list(itertools.permutations(range(3)))
+
+
+def fam_overlap3(c, tier):
+    """three one-glyph boxes (char_margin = line_margin = 0 keeps every glyph a box of its own): a huge glyph, a small
+    glyph inside it and a caption overlapping its edge by various amounts -> pairs with different (negative) distances"""
+    sx, sy, ss = c.pick([(8, 8, 8), (40, 44, 8), (20, 12, 4)], "small glyph")
+    # caption 32x8: protrudes from the huge glyph by 1, 2, 3, 4 (distance -192, -128, -64, 0 at cy inside), 8, 24, 32 (touching), 40
+    cx = c.pick([33, 34, 35, 36, 40, 56, 64, 72], "caption x")
+    cy = c.pick([20, -4, 28], "caption y")
+    perm = c.pick(PERM3B, "content order")
+    gl = [G("H", 0, 0, 64, 64), G("s", sx, sy, ss, ss), G("c", cx, cy, 32, 8)]
+    return {"family": "overlap3", "glyphs": [gl[i] for i in perm], "params": (Q(1, 2), Q(0), Q(0), Q(1, 4), Q(1, 2)),
+            "judge_space": True, "extra_scales": (), "group_tree": True}
+
+
 def fam_chain_in_figure(c, tier):
     g = fam_chain(c, tier)
     g["family"] = "chain-in-figure"
@@ -344,6 +379,8 @@ FAMILIES = {
     "chain": (fam_chain, lambda t: [27, len(CHAIN_GAPS) + 3] if t == "thorough" else [8, len(CHAIN_GAPS)], "HV"),
     "columns": (fam_columns, lambda t: [9 if t == "thorough" else 6, len(BF_COLUMNS)], "H"),
     "triple-back": (fam_triple_back, lambda t: [2, 2], "HV"),
+    "hline-then-cross": (fam_hline_then_cross, lambda t: [2, 2, 2], "HV"),
+    "overlap3": (fam_overlap3, lambda t: [3, 8], "H"),
     "chain-in-figure": (fam_chain_in_figure, lambda t: [27, len(CHAIN_GAPS) + 3] if t == "thorough" else [8, len(CHAIN_GAPS)], "H"),
 }
 
@@ -357,12 +394,12 @@ META = {
         "(two lines: vertical gap, height difference and start/end/centre offsets each on/below/above line_margin*height "
         "of the viewing line, either line viewing, either content order; neighbours-by-half-a-unit also translated so that the near edge lies on a line of Plane's 50-unit grid; proper-overlap shift family); chain (three lines of "
         "heights 8/16 with gaps around both tolerances, all 6 content orders: connected components of an asymmetric "
-        "relation); chain-in-figure (the chain arrangements as the content of a figure on a page that has no glyph of its own, all_texts=True: same expected grouping); triple-back (second glyph placed back over a wide first glyph, third glyph with its gap to the second on/below/above both margins); columns (1-2 columns x 1-3 rows, 1-2 lines per cell, single column also with a wide top cell, boxes_flow {1/4,1/2,3/4,0,0.0,-0.0,+1,-1}, content orders). Every "
+        "relation); chain-in-figure (the chain arrangements as the content of a figure on a page that has no glyph of its own, all_texts=True: same expected grouping); hline-then-cross (a line of 2-3 glyphs followed by a glyph directly below/above its last or first glyph with along-overlap and across-distance on/below/above the thresholds, detect_vertical=True, both writing directions: only the determinate half -- a line holds only consecutive glyphs joined by its own direction's predicate -- is judged); overlap3 (a huge glyph, a small glyph inside it and a caption overlapping its edge, char_margin = line_margin = 0, all content orders: the closest pair, distance = bounding area minus both areas, must be merged first in page.groups); triple-back (second glyph placed back over a wide first glyph, third glyph with its gap to the second on/below/above both margins); columns (1-2 columns x 1-3 rows, 1-2 lines per cell, single column also with a wide top cell, boxes_flow {1/4,1/2,3/4,0,0.0,-0.0,+1,-1}, content orders). Every "
         "family except columns is run in horizontal writing (detect_vertical=False) and mirrored into vertical writing "
         "(detect_vertical=True). Every arrangement is analysed at scale 1 and at 2^k, k in {-3,-1,1,4} (k=7 and k=10 on "
         "stated sub-families). A case is one arrangement with its LAParams (distinct by construction); non-trivial = the "
         "model predicts at least one join (a line of >= 2 glyphs or a box of >= 2 lines) or the case is a column grid "
-        "with >= 2 boxes. states/transitions = nodes/edges of the choice trees; traces = arrangements compared with the model."
+        "with >= 2 boxes or an overlap3 arrangement (group tree judged). states/transitions = nodes/edges of the choice trees; traces = arrangements compared with the model."
     ),
     "bound": {
         "quick": "all families; pair with 6 of the 16 size combinations; scales {-3,-1,1,4}, k=7 for all 8x8 pairs, k=10 for the 8x8 pairs with line_overlap 1/2, char_margin 1/2, word_margin 1/4, overlap on the threshold",
@@ -375,7 +412,7 @@ META = {
         "pairs of consecutive glyphs that satisfy the joining predicate of the *other* writing direction under detect_vertical are not judged (documentation silent)",
         "in vertical writing, the box relation of single-glyph lines is not judged (the implementation makes them horizontal lines; documentation silent)",
         "space insertion is not judged for glyph pairs placed right-to-left in content order (the documentation defines no signed gap)",
-        "box order is judged only on column grids: full column-major order for |boxes_flow| < 1 (incl. 0, 0.0, -0.0), only top-to-bottom within each column for +1, only left-column-first for -1; hierarchical group shape is only compared across scales",
+        "the group tree is judged only in overlap3 and only where the documented closest-first rule is not overridden by the implementation's undocumented postponement of pairs with a box in between; box order is judged only on column grids: full column-major order for |boxes_flow| < 1 (incl. 0, 0.0, -0.0), only top-to-bottom within each column for +1, only left-column-first for -1; hierarchical group shape is only compared across scales",
         "ties between equal box distances are broken by id() (memory address) in group_textboxes -- run-to-run dependence is C12's "
         "subject; the harness substitutes a first-asked counter for the name `id` inside pdfminer.layout so that runs are reproducible",
         "scale factors beyond 2^4 are explored only on small sub-families because Plane's fixed grid size makes the analysis cost grow with the square of the scale",
@@ -411,12 +448,14 @@ def materialise(gen, orient):
         "orient": orient,
         "glyphs": boxes,
         "page": P,
-        "params": (lo, cm, lm, wm, bf, orient == "V"),
+        "params": (lo, cm, lm, wm, bf, bool(gen.get("detect_vertical")) or orient == "V"),
         "judge_space": gen["judge_space"],
         "scales": tuple(BASE_SCALES) + tuple(gen["extra_scales"]),
     }
     if gen.get("in_figure"):
         case["in_figure"] = True
+    if gen.get("group_tree"):
+        case["group_tree"] = True
     if "column_major" in gen:
         case["column_major"] = gen["column_major"]
         case["cell_cols"] = gen["cell_cols"]
@@ -501,7 +540,7 @@ def judge(case):
     problems = []
     notj = []
     rd, lines, boxes, cross = expected(case)
-    nontrivial = any(len(l[0]) > 1 for l in lines) or any(len(b) > 1 for b in boxes) or (case["family"] == "columns" and len(boxes) > 1)
+    nontrivial = any(len(l[0]) > 1 for l in lines) or any(len(b) > 1 for b in boxes) or (case["family"] == "columns" and len(boxes) > 1) or bool(case.get("group_tree"))
     try:
         base = run_impl(case, 0)
     except FigureNotAnalysed as e:
@@ -511,8 +550,11 @@ def judge(case):
         return [(f"C09/exception:{type(e).__name__}@{tb[-1].name}", "analysis returns", f"{type(e).__name__}: {e}")], ("exc",), nontrivial, notj
     if cross:
         notj.append("consecutive glyphs also aligned in the other writing direction under detect_vertical")
+        problems += lines_only_if(case, base)
     else:
         problems += compare(case, rd, lines, boxes, base, notj)
+        if case.get("group_tree") and not problems:
+            problems += group_tree_check(case, lines, base, notj)
     for k in case["scales"]:
         try:
             sk = run_impl(case, k)
@@ -524,6 +566,49 @@ def judge(case):
             problems.append(("C09/scale-dependent-outcome", base, {"k": k, "outcome": sk}))
             break
     return problems, base, nontrivial, notj
+
+
+def lines_only_if(case, obs):
+    """the half of 'joined exactly when' that is determined even when a pair is aligned in both writing directions:
+    a line of one direction holds only glyphs that are consecutive in the content and pairwise joined by THAT
+    direction's documented predicate"""
+    lo, cm, lm, wm, bf, dv = case["params"]
+    rdd = {o: [M.to_reading((x0, y0, x0 + w, y0 + h), o) for _, x0, y0, w, h in case["glyphs"]] for o in "HV"}
+    obs_boxes, loose, _ = obs
+    for ln in [ln for b in obs_boxes for ln in b[1]] + list(loose):
+        d, idx = ln[0], ln[1]
+        for i, j in zip(idx, idx[1:]):
+            if j != i + 1:
+                return [("C09/char-join:line-of-non-consecutive-glyphs", "consecutive glyphs", ln)]
+            if not M.chars_joined(rdd[d][i], rdd[d][j], lo, cm):
+                return [(f"C09/char-join:joined-without-alignment:{'horizontal' if d == 'H' else 'vertical'}-line",
+                         f"glyphs {i},{j} not in one {d} line", ln)]
+    return []
+
+
+def group_tree_check(case, lines, obs, notj):
+    """three one-glyph boxes: the pair the documentation calls closest is merged first"""
+    if len(lines) != 3:
+        return []
+    bb = [l[2] for l in lines]                       # line boxes = glyph boxes, in content order
+    pair, why = M.first_merge_of_three(bb)
+    if pair is None:
+        notj.append("group tree: " + why)
+        return []
+    obs_boxes, _, groups = obs
+    leaf = {k: b[1][0][1][0] for k, b in enumerate(obs_boxes)}   # box position -> glyph index
+    if len(groups) != 1 or len(groups[0]) != 2:
+        return [("C09/group-tree:not-a-single-binary-root", "one root of two members", groups)]
+    inner = [m for m in groups[0] if isinstance(m, tuple)]
+    if len(inner) != 1 or len(inner[0]) != 2 or any(isinstance(m, tuple) for m in inner[0]):
+        return [("C09/group-tree:not-a-single-binary-root", "one root of two members", groups)]
+    got = tuple(sorted(leaf[m] for m in inner[0]))
+    if got != tuple(sorted(lines[k][0][0] for k in pair)):
+        d = {pq: M.box_distance(bb[pq[0]], bb[pq[1]]) for pq in ((0, 1), (0, 2), (1, 2))}
+        neg = sum(1 for v in d.values() if v <= 0)
+        cause = "several-pairs-overlap" if neg >= 2 else "off-overlap"
+        return [(f"C09/group-tree:closest-pair-not-merged-first:{cause}", {"first": pair, "distances": {str(k): v for k, v in d.items()}}, {"first": got})]
+    return []
 
 
 def _decisive_term(x, y, lm, direct):
